@@ -11,7 +11,7 @@ UNIT = dict(
     encoded={F: ["const SALT", "struct Block", "impl Block (mask, insert, check, to_le_bytes, to_ne_bytes)", "Index/IndexMut for Block",
                  "struct Sbbf", "Sbbf::{new, hash_to_block_index, insert_hash, check_hash, to_bytes, num_blocks, size_bytes}"]},
     models=["Block::mask inside Block::insert/check -> lazily sampled uninterpreted function (deterministic, one bit per word, <=2 distinct arguments); the real mask is checked separately",
-            "Vec<Block> (the filter's block list) -> vstd fixed-capacity vector (4 blocks); the byte buffers stay real Vec<u8>",
+            "Vec<Block> (the filter's block list) -> vstd::cvec fixed-capacity contiguous vector (4 blocks; Block gets a model-only Default = Block::ZERO); the byte buffers stay real Vec<u8>",
             "SbbfError -> unit-like error (format! payload dropped)",
             "Sbbf::insert/check over AsBytes (xxhash of the value bytes) removed: hashing is a library call; the filter is driven through insert_hash/check_hash with arbitrary u64 hashes",
             "with_ndv_fpp/with_log2_num_bytes/write_bitset removed (float sizing, io::Write)"],
@@ -44,8 +44,8 @@ def build(repo, subs):
         impl = X.remove_item(impl, rx)
     impl = subs.rx(impl, r"return Err\(SbbfError::InvalidData \{.*?\}\);", "return Err(SbbfError::InvalidData);", flags=re.S,
                    why="error payload (format!) is not part of the semantics")
-    st = subs.lit(st, "blocks: Vec<Block>,", "blocks: vstd::vec::Vec<Block>,", why="fixed-capacity Vec model (capacity 4 blocks)")
-    impl = subs.lit(impl, ".collect::<Vec<Block>>();", ".collect::<vstd::vec::Vec<Block>>();", why="fixed-capacity Vec model")
+    st = subs.lit(st, "blocks: Vec<Block>,", "blocks: vstd::cvec::Vec<Block>,", why="fixed-capacity contiguous Vec model (capacity 4 blocks; slices and iterators are the real core code)")
+    impl = subs.lit(impl, ".collect::<Vec<Block>>();", ".collect::<vstd::cvec::Vec<Block>>();", why="fixed-capacity Vec model")
     hbi = X.extract_item(impl, r"^\s*fn hash_to_block_index\b")
     lifted = subs.lit(hbi, "fn hash_to_block_index(&self, hash: u64) -> usize {", "pub fn verif_block_index(len: usize, hash: u64) -> usize {",
                       why="same body with the block count as a parameter, so that all counts up to 2^32 can be covered")
